@@ -26,10 +26,10 @@ TABLE = {
           ('C05_history', 'C05_history'), ('C05_history_next_discover', 'C05_history_next'), ('C05_after_reset_anyone', 'C05_after_reset_any'), ('C05_on_the_buffer_level_model', 'C05_buffer_level')]),
  'C06': ('BlockFun PropsEmit BufferLevel', 'C06: Emit executed descriptor by descriptor, then acknowledged; bounded',
          [('C06_emit_sequence', 'C06_emit'), ('C06_descriptor_slicing', 'read_descs_spec'), ('C06_unknown_kinds', 'C06_emit_any_frames'), ('C06_oversize_count_dropped', 'C06_nofit'), ('C06_transmission_bound', 'C06_bound'), ('C06_on_the_buffer_level_model', 'C06_buffer_level'), ('C06_any_kinds_buffer_level', 'C06_buffer_level_any'), ('C06_oversize_buffer_level', 'C06_buffer_level_nofit'), ('C06_bound_buffer_level', 'C06_buffer_level_bound')]),
- 'C07': ('BlockFun PropsQuery BufferLevel', 'C07: every observed probe reported exactly once',
+ 'C07': ('BlockFun PropsQuery BufferLevel QueryHistory', 'C07: every observed probe reported exactly once',
          [('C07_record_rule', 'C07_record'), ('C07_no_duplicate_keys', 'C07_nodup_run'), ('C07_query_reports', 'C07_query'), ('C07_query_on_the_wire', 'C07_query_decoded'),
           ('C07_reply_destination', 'reply_dst_spec'), ('C07_other_frames_keep', 'C07_others_keep'), ('C07_reset_discards', 'C07_reset_discards'),
-          ('C07_conservation', 'C07_conservation'), ('C07_drain', 'C07_drain'), ('C07_drain_last_clear', 'C07_drain_last'), ('C07_on_the_buffer_level_model', 'C07_buffer_level'), ('C07_decoded_buffer_level', 'C07_buffer_level_decoded'), ('C07_record_buffer_level', 'C07_buffer_level_record')]),
+          ('C07_conservation', 'C07_conservation'), ('C07_drain', 'C07_drain'), ('C07_drain_last_clear', 'C07_drain_last'), ('C07_on_the_buffer_level_model', 'C07_buffer_level'), ('C07_decoded_buffer_level', 'C07_buffer_level_decoded'), ('C07_record_buffer_level', 'C07_buffer_level_record'), ('C07_conservation_over_any_history_buffer_level', 'C07_buffer_level_history'), ('C07_no_duplicates_over_any_history_buffer_level', 'C07_buffer_level_history_nodup')]),
  'C08': ('BlockFun PropsLarge BufferLevel', 'C08: large properties retrievable byte-exactly by offset',
          [('C08_response', 'C08_step'), ('C08_chunk_length', 'C08_chunk_length'), ('C08_fits_mtu', 'C08_fits'), ('C08_seq_zero_ignored', 'C08_seq0'), ('C08_unknown_or_past_end', 'C08_past_end'),
           ('C08_wire_decoding', 'decode_qlt_frame'), ('C08_reassembly', 'C08_reassemble'), ('C08_mapper_loop_end_to_end', 'C08_fetch_wire'), ('C08_offsets_fit', 'C08_offsets_16bit'),
